@@ -42,6 +42,14 @@ theorem Honest.congr {T : List Lbl} {α : Type} {r r' : RS → Res α} {c : List
   intro t tail pos R F hp hR
   rw [h]; exact h' t tail pos R F hp hR
 
+/-- `r` and `r'` agree on the states the statement is about (checks against what the stream still holds) -/
+theorem Honest.congrOn {T : List Lbl} {α : Type} {r r' : RS → Res α} {c : List Item} {a : α}
+    (h : ∀ (t : List Lbl) (tail : Bytes) (pos : Nat) (R : List Lbl) (F : List Nat),
+      r ⟨(encItems t c).2 ++ tail, pos, true, R, F⟩ = r' ⟨(encItems t c).2 ++ tail, pos, true, R, F⟩)
+    (h' : Honest T r' c a) : Honest T r c a := by
+  intro t tail pos R F hp hR
+  rw [h]; exact h' t tail pos R F hp hR
+
 theorem Honest.calls_eq {T : List Lbl} {α : Type} {r : RS → Res α} {c c' : List Item} {a : α}
     (h : c = c') (h' : Honest T r c' a) : Honest T r c a := h ▸ h'
 
